@@ -61,7 +61,8 @@ class CopyPropagate_apply_with_status(Contract):
     native_universe = 'spec.c07_ref:key_universe'
     native_demo = 'spec.c07_ref:demo'
     native_stubs = {'fpy2.analysis.define_use:DefineUse.analyze': 'spec.c07_ref:stub_analyze'}
-    options = {'local_types': {'prop': 'dict[Key[Definition], Key[Expr]]'}, 'key_attrs': 'spec.c07:KEY_ATTRS'}
+    options = {'local_types': {'prop': 'dict[Key[Definition], Key[Expr]]'}, 'key_attrs': 'spec.c07:KEY_ATTRS',
+               'feas_ms': 40}     # quantified facts: a satisfiable feasibility check only ever times out (unknown = feasible)
     note = ('verified: the loop over def_use.defs (symbolic length) with invariant inv0; reaching definitions are '
             'uninterpreted (spec.c07.reach_use / reach_site)')
 
@@ -77,6 +78,10 @@ class CopyPropagate_apply_with_status(Contract):
             'rhs': forall_keys('Definition', lambda k: implies(k in prop, map_val(prop, k) == copy_rhs(k))),
             # ... and only when the copied-from variable has the same reaching definition at every rewritten use
             'stable': forall_keys('Definition', lambda k: implies(k in prop, stable(func, k))),
+            # `selected` describes exactly what the pass rewrites (so that `safe` cannot hold vacuously)
+            'only_selected': forall_keys('Definition', lambda k: implies(k in prop, selected(func, names, k))),
+            'all_selected': forall_ints(lambda i: implies(0 <= i and i < done and selected(func, names, seq_at(du.defs, i)),
+                                                          seq_at(du.defs, i) in prop)),
             # every definition the pass selects among the first `done` is stable
             'safe': forall_ints(lambda i: implies(0 <= i and i < done and selected(func, names, seq_at(du.defs, i)),
                                                   stable(func, seq_at(du.defs, i)))),
